@@ -119,7 +119,7 @@ def gen_strings(tier):
                     yield from emit(fill(sh, iter(ops), iter(lv)))
     # function wrappers around <= 2-leaf subtrees
     wl = ["2d0", "Tgas", "-2", "n(idx_H)"]
-    for fn in ("exp", "sqrt", "log", "dexp", "log10", "dlog", "dsqrt", "dlog10", "abs"):
+    for fn in ("exp", "sqrt", "log", "dexp", "log10", "dlog", "dsqrt", "dlog10", "abs", "EXP", "SQRT", "Log10"):
         for a in wl:
             yield from emit(("fn", fn, a))
             for op in OPS:
